@@ -237,7 +237,13 @@ func shellWorkflows(rng *rand.Rand, n int) []*spec.Spec {
 		for d := 0; d < depth; d++ {
 			pn := fmt.Sprintf("step_%d", d)
 			var cmd string
-			switch rng.Intn(4) {
+			switch rng.Intn(7) {
+			case 4:
+				cmd = "tr a-z A-Z <{i:in} >{o:out}"
+			case 5:
+				cmd = "dd if={i:in} of={o:out} status=none"
+			case 6:
+				cmd = "sh -c 'echo $GREETING' > {o:out} && cat {i:in} >> {o:out}"
 			case 0:
 				cmd = "cat {i:in} | tr a-z A-Z > {o:out}"
 			case 1:
@@ -248,6 +254,9 @@ func shellWorkflows(rng *rand.Rand, n int) []*spec.Spec {
 				cmd = "wc -c < {i:in} > {o:out}"
 			}
 			p := &spec.Proc{Name: pn, Kind: spec.KCmd, Cmd: cmd}
+			if strings.Contains(cmd, "GREETING") {
+				p.Prepend = "env GREETING=hello_" + pn
+			}
 			if strings.Contains(cmd, "{p:w}") {
 				vals := []string{}
 				for range files {
